@@ -224,6 +224,21 @@ def main():
         v, n, r_ = predict(c_, rng, q_)
         res['predictions_checked'] += n; res['violations'] += v; res['configs'] += 1
         dist['corpus'] = dist.get('corpus', 0) + 1
+    # a FINE grid: the residual norm Newton settles at grows with nphi, so anything that tests convergence against an absolute number shows up here
+    for c_ in [dict(rc=[1.0, 0.17, 0.01804, 0.001409, 5.877e-05], zs=[0.0, 0.1581, 0.0182, 0.001548, 7.772e-05], nfp=4, etabar=1.569, B2c=0.1348, order='r2', nphi=401)]:
+        if res['violations']:
+            break
+        try:
+            q_, m_ = build(c_)
+            missing = [nm for nm in ('X20', 'Y20', 'B20', 'G2', 'beta_1s') if not hasattr(q_, nm)]
+            if missing:
+                res['violations'].append(dict(key='fine-grid', what='an order-r2 object built at nphi=%d lacks the second-order output %s (first-order solve reported: %s)' % (c_['nphi'], missing, m_[:1]), cfg=jsonable(c_)))
+            else:
+                v, n, r_ = predict(c_, rng, q_)
+                res['predictions_checked'] += n; res['violations'] += v
+            res['configs'] += 1; dist['fixed:fine-grid'] = 1
+        except Exception as e:
+            res['violations'].append(dict(key='fine-grid', what='building an order-r2 object at nphi=%d raised %s' % (c_['nphi'], type(e).__name__), cfg=jsonable(c_)))
     while tried < nn and (a.mode == 'check' or (time.time() - t0 < a.budget and not res['violations'])):
         tried += 1
         sg = [(1, 1), (1, -1), (-1, 1), (-1, -1)][tried % 4]
